@@ -30,41 +30,67 @@ def drive(ctx, sess):
     wd = tlc.workdir("creator")
     atoms = ([{"k": "num", "v": v} for v in ([0, 1], [1, 1], [2, 1], [1, 2], [3, 1])] + [{"k": "stat", "s": x} for x in fx_checks.STATS])
     n_runs = 0
+    n_files = 0
+
+    def one_run(creator, lat, lon, grid, bbox):
+        nonlocal n_runs
+        names = ["suspect_min", "suspect_max", "fail_min", "fail_max"]
+        exprs = {nm: fx_checks.rand_expr(r, r.choice([0, 1, 2]), atoms) for nm in names}
+        start = r.choice(["2020-01-01", "2020-03-10", "2020-11-20", "2021-06-01", "2019-12-15", "2020-02-29"])
+        days = r.choice([1, 10, 30, 90, 200, 364])
+        end = (pd.Timestamp(start) + pd.Timedelta(days=days)).strftime("%Y-%m-%d")
+        vc = {"variable": "temp", "bbox": [float(v) for v in bbox], "start_time": start, "end_time": end,
+              "tests": {"gross_range_test": {nm: fx_checks.render(exprs[nm], False) for nm in names}}}
+        e = {"ev": "create", "grid": {"lat": lat, "lon": lon, "v": grid}, "bbox": bbox, "start": start, "end": end,
+             "items": [], "exprs": [exprs[nm] for nm in names], "exc": ""}
+        try:
+            out = creator.create_config(QcVariableConfig(vc))
+            sec = out["temp"]["qartod"]["gross_range_test"]
+            got = {"suspect_min": sec["suspect_span"][0], "suspect_max": sec["suspect_span"][1],
+                   "fail_min": sec["fail_span"][0], "fail_max": sec["fail_span"][1]}
+            for nm in names:
+                val, ok = fx_checks.frac_of(float(got[nm]))
+                e["items"].append({"name": nm, "toks": exprs[nm], "val": val, "resid_ok": ok})
+        except BaseException as ex:  # noqa: BLE001
+            e["exc"] = type(ex).__name__
+        sess.add(e)
+        n_runs += 1
+
+    def load(lat, lon, grid):
+        nonlocal n_files
+        path = os.path.join(wd, "clim_%d.nc" % n_files)
+        n_files += 1
+        write_clim(path, lat, lon, grid)
+        try:
+            return QcConfigCreator(CreatorConfig({"datasets": [{"name": "d", "file_path": path, "variables": {"temp": "t"}}]}))
+        except Exception as ex:  # noqa: BLE001
+            raise tlc.MachineryError("cannot load synthetic climatology: %r" % ex)
+
     for g in range(ctx.pick(10, 60)):
         nlat, nlon = r.randint(2, 4), r.randint(2, 4)
         lat = sorted(r.sample(range(-3, 6), nlat))
         lon = sorted(r.sample(range(-4, 7), nlon))
+        # (a) arbitrary cells: the standard deviation is usually irrational, expressions using it are then not judged
         pool = r.choice([[0, 2], [0, 0, 4], [1, 1, 3], [0, 2, 4, NA], [2, 2, 2], [0], [0, 4, NA], [-1, 1, 3, 5]])
         grid = [[r.choice(pool) for _ in lon] for _ in lat]
-        path = os.path.join(wd, "clim_%d.nc" % g)
-        write_clim(path, lat, lon, grid)
-        try:
-            creator = QcConfigCreator(CreatorConfig({"datasets": [{"name": "d", "file_path": path, "variables": {"temp": "t"}}]}))
-        except Exception as ex:  # noqa: BLE001
-            raise tlc.MachineryError("cannot load synthetic climatology: %r" % ex)
-        for b in range(ctx.pick(8, 20)):
+        creator = load(lat, lon, grid)
+        for b in range(ctx.pick(4, 10)):
             x1, x2 = sorted([r.choice(lon) + r.choice([0, 0, -1]), r.choice(lon) + r.choice([0, 0, 1])])
             y1, y2 = sorted([r.choice(lat) + r.choice([0, 0, -1]), r.choice(lat) + r.choice([0, 0, 1])])
-            bbox = [x1, y1, x2, y2]
-            names = ["suspect_min", "suspect_max", "fail_min", "fail_max"]
-            exprs = {nm: fx_checks.rand_expr(r, r.choice([0, 1, 2]), atoms) for nm in names}
-            start = r.choice(["2020-01-01", "2020-03-10", "2020-11-20", "2021-06-01", "2019-12-15"])
-            days = r.choice([1, 10, 30, 90, 200, 364])
-            end = (pd.Timestamp(start) + pd.Timedelta(days=days)).strftime("%Y-%m-%d")
-            vc = {"variable": "temp", "bbox": [float(v) for v in bbox], "start_time": start, "end_time": end,
-                  "tests": {"gross_range_test": {nm: fx_checks.render(exprs[nm], False) for nm in names}}}
-            e = {"ev": "create", "grid": {"lat": lat, "lon": lon, "v": grid}, "bbox": bbox, "start": start, "end": end,
-                 "items": [], "exprs": [exprs[nm] for nm in names], "exc": ""}
-            try:
-                out = creator.create_config(QcVariableConfig(vc))
-                sec = out["temp"]["qartod"]["gross_range_test"]
-                got = {"suspect_min": sec["suspect_span"][0], "suspect_max": sec["suspect_span"][1],
-                       "fail_min": sec["fail_span"][0], "fail_max": sec["fail_span"][1]}
-                for nm in names:
-                    val, ok = fx_checks.frac_of(float(got[nm]))
-                    e["items"].append({"name": nm, "toks": exprs[nm], "val": val, "resid_ok": ok})
-            except BaseException as ex:  # noqa: BLE001
-                e["exc"] = type(ex).__name__
-            sess.add(e)
-            n_runs += 1
+            one_run(creator, lat, lon, grid, [x1, y1, x2, y2])
+        # (b) cells chosen for the box: half a, half a + 2k inside it (an odd cell is left without data), so that the
+        #     population standard deviation is exactly k and every expression can be judged; outside cells are arbitrary
+        for b in range(ctx.pick(4, 10)):
+            x1, x2 = sorted([r.choice(lon), r.choice(lon)])
+            y1, y2 = sorted([r.choice(lat), r.choice(lat)])
+            inside = [(i, j) for i in range(nlat) for j in range(nlon) if y1 <= lat[i] <= y2 and x1 <= lon[j] <= x2]
+            base, k = r.randint(-3, 4), r.choice([0, 1, 2, 3])
+            g2 = [[r.choice([-7, 9, 11, NA]) for _ in lon] for _ in lat]
+            r.shuffle(inside)
+            if len(inside) % 2 and len(inside) > 1:
+                i, j = inside.pop()
+                g2[i][j] = NA
+            for n_, (i, j) in enumerate(inside):
+                g2[i][j] = base + (2 * k if (n_ % 2 and len(inside) > 1) else 0)
+            one_run(load(lat, lon, g2), lat, lon, g2, [x1, y1, x2, y2])
     ctx.cov["creator_runs"] = n_runs
